@@ -141,13 +141,14 @@ Proof.
   induction 1; simpl; intros S2 H12; auto.
   constructor.
   - apply IHStronglySorted; auto; intros; apply H12; auto; now right.
-  - rewrite Forall_forall in *. intros x Hx. apply in_app_iff in Hx as [Hx|Hx]; auto. apply H12; auto. now left.
+  - rewrite Forall_forall in *. intros x Hx. apply in_app_iff in Hx as [Hx|Hx]; auto; apply H12; auto; now left.
 Qed.
 
 Lemma listed_in_SS b : wfc b -> StronglySorted N.lt (map fst (listed_in b)).
 Proof.
   intros [W _]. unfold listed_in. destruct (cgc b); [constructor|].
-  pose proof (sm_wf_SS _ W) as S. induction (objs b) as [|[k e] r IH]; simpl; [constructor|].
+  generalize (sm_wf_SS _ W). generalize (objs b). intros m.
+  induction m as [|[k e] r IH]; intros S; simpl; [constructor|].
   inversion S; subst. destruct (e_phy e && negb (marked_for_removal b k)); simpl; auto.
   constructor; auto. rewrite Forall_forall in *. intros x Hx. apply in_map_iff in Hx as [[o t] [E Hx]]. simpl in E; subst.
   apply in_flat_map in Hx as [[k' e'] [Hk Hx]]. simpl in Hx.
@@ -157,8 +158,8 @@ Qed.
 
 Lemma listed_sorted s : wf_state s -> StronglySorted addr_lt (map item_addr (listed s)).
 Proof.
-  intros [W1 W2]. unfold listed. pose proof (sm_wf_SS _ W1) as S.
-  induction (cnrs s) as [|[c b] r IH]; simpl; [constructor|].
+  intros [W1 W2]. unfold listed. revert W2. generalize (sm_wf_SS _ W1). generalize (cnrs s). intros m.
+  induction m as [|[c b] r IH]; intros S W2; simpl; [constructor|].
   inversion S; subst. rewrite map_app. apply SS_app.
   - pose proof (listed_in_SS b (W2 c b (or_introl eq_refl))) as Sb. rewrite map_map.
     induction (listed_in b) as [|[o t] l IHl]; simpl; [constructor|]. inversion Sb; subst.
@@ -198,9 +199,12 @@ Proof.
   exists b, e. repeat split; auto.
 Qed.
 
+Lemma firstn_incl {A} n (l : list A) x : In x (firstn n l) -> In x l.
+Proof. revert l. induction n; intros l; simpl; [contradiction|]. destruct l; simpl; auto. intros [H|H]; auto. Qed.
+
 Lemma c06_never_lists_removed s n cur it :
   wf_state s -> oids_pos s -> In it (fst (view_list s n cur)) -> In it (listed s).
 Proof.
-  intros W P H. rewrite (c06_any_cursor s n cur W P) in H. apply firstn_In in H.
+  intros W P H. rewrite (c06_any_cursor s n cur W P) in H. apply firstn_incl in H.
   unfold listed_after in H. now apply filter_In in H as [H _].
 Qed.
